@@ -388,6 +388,41 @@ func (m *mcfg) genPackets(six bool, hook string, n int, r *vlib.Rand) []pkt {
 			}
 		}
 	}
+	if hook == "OUTPUT" {
+		// targeted: application TCP on eth0 for (address inside each excluded / included / loopback range)
+		// x (each port-include, port-exclude port and 80); proxy-owned traffic to the same places on eth0 and lo
+		var ins []*big.Int
+		for _, l := range [][]pfx{m.Exc, m.Inc} {
+			for _, q := range l {
+				if q.V6 == six && len(ins) < 4 {
+					ins = append(ins, q.cidr().Base)
+				}
+			}
+		}
+		ins = append(ins, b.addrs[0], b.addrs[len(b.addrs)-1])
+		ports := addU(append(append([]uint64{}, m.OutPInc...), m.OutPExc...), 80)
+		var tg []pkt
+		for _, a := range ins {
+			for _, d := range ports {
+				tg = append(tg, pkt{Proto: "TCP", Src: b.srcs[len(b.srcs)-1], Dst: a, Sport: 40000, Dport: d, In: noIface, Out: 1, UID: 1000, GID: 1000})
+			}
+		}
+		for _, a := range ins {
+			if len(m.UIDs) > 0 {
+				u := m.UIDs[r.Intn(len(m.UIDs))]
+				tg = append(tg, pkt{Proto: "TCP", Src: b.srcs[len(b.srcs)-1], Dst: a, Sport: 40000, Dport: 80, In: noIface, Out: uint64(r.Intn(2)), UID: u, GID: 1000})
+			}
+			if len(m.GIDs) > 0 {
+				g := m.GIDs[r.Intn(len(m.GIDs))]
+				tg = append(tg, pkt{Proto: "TCP", Src: b.srcs[len(b.srcs)-1], Dst: a, Sport: 40000, Dport: 80, In: noIface, Out: uint64(r.Intn(2)), UID: 1000, GID: g})
+			}
+		}
+		for len(tg) > n/2 { // keep a random half-budget subset
+			k := r.Intn(len(tg))
+			tg = append(tg[:k], tg[k+1:]...)
+		}
+		out = append(out, tg...)
+	}
 	for i := len(out); i < n; i++ {
 		p := pkt{Proto: "TCP", Src: b.srcs[len(b.srcs)-1], Sport: 40000 + uint64(r.Intn(1000)), In: noIface, Out: noIface}
 		switch x := r.Intn(10); {
@@ -652,7 +687,7 @@ func TestGen(t *testing.T) {
 		"one list or flag (always true for generated configs; the default config is the single trivial case)."
 	rnd := vlib.NewRand(vlib.Seed() ^ 0xC20)
 	id := 0
-	nCfg := vlib.Scale(80, 1500)
+	nCfg := vlib.Scale(56, 1500)
 	nOut := vlib.Scale(36, 108)
 	nPre := vlib.Scale(18, 54)
 	chunk := 18
